@@ -3,7 +3,7 @@
    the implementation on logged event streams); proofs: Asm/Proofs.v.  That the bytes are the instructions written and that labels,
    operands and edges are the ones the text asks for is decided on the implementation against the text (harness/c12.py). *)
 From Coq Require Import ZArith List Bool Arith.
-From GR Require Import Base.Result IR.State Asm.Model Asm.Proofs.
+From GR Require Import Base.Result IR.State Asm.Model Asm.Proofs Asm.Edges.
 Import ListNotations.
 Open Scope Z_scope.
 
@@ -25,6 +25,39 @@ Theorem C12_a_control_transfer_ends_its_block :
     all_tiled s -> step t sfx s (EInsn len ret call branch cond indirect fx) = Ok s' -> ret || call || branch = true ->
     exists x' b', cur_sect s' = Ok x' /\ cur_block x' = Ok b' /\ ab_size b' = 0 /\ ab_off b' = as_len x'.
 Proof. exact a_control_transfer_ends_its_block. Qed.
+
+(* the edges of an instruction are the ones its kind demands: a return gets one Return edge to a proxy made for it; a call gets a Call
+   edge and a fallthrough to the block that starts behind it; a jump one Branch edge; a conditional jump a conditional Branch edge and
+   a fallthrough; an indirect transfer targets a fresh proxy and is flagged indirect; a direct one targets the referent of the symbol
+   its single fixup names; any other instruction leaves the CFG and the current block alone *)
+Theorem C12_edges_of_an_instruction :
+  forall t sfx s len ret call branch cond indirect fx s' i,
+  cur_id s = Some i -> step t sfx s (EInsn len ret call branch cond indirect fx) = Ok s' ->
+  if ret then
+    exists p, (a_next s <= p)%nat /\ In p (a_proxies s') /\
+              a_cfg s' = cfg_add (mk_aedge i (RProxy p) ET_R false true) (a_cfg s)
+  else if call || branch then
+    exists tgt direct nb,
+      a_cfg s' = (if call || cond then cfg_add (mk_aedge i (RBlock nb) ET_F false true) else fun c => c)
+                   (cfg_add (insn_edge i tgt call cond direct) (a_cfg s)) /\
+      cur_id s' = Some nb /\ (a_next s <= nb)%nat /\
+      (if indirect then direct = false /\ exists p, tgt = RProxy p /\ (a_next s <= p)%nat /\ In p (a_proxies s')
+       else direct = true /\ is_cfgnode tgt = true /\
+            exists f sa sb e y, fx = [f] /\ to_sx t sa (fixup_expr f len) true = Ok (e, y, sb) /\ tgt = sy_ref y)
+  else a_cfg s' = a_cfg s /\ cur_id s' = Some i.
+Proof. exact insn_edges. Qed.
+
+(* a label ends the current block with one fallthrough edge to the label's block, which becomes current *)
+Theorem C12_a_label_starts_a_block :
+  forall t sfx s name s' i,
+  cur_id s = Some i -> step t sfx s (ELabel name) = Ok s' ->
+  exists y lb, find (fun kv => Nat.eqb (fst kv) name) (a_syms s) = Some (name, y) /\ sy_ref y = RBlock lb /\
+    a_cfg s' = cfg_add (mk_aedge i (RBlock lb) ET_F false true) (a_cfg s) /\ cur_id s' = Some lb.
+Proof. exact label_edge. Qed.
+
+Theorem C12_data_and_directives_add_no_edge :
+  forall t sfx s e s', adds_no_edge e = true -> step t sfx s e = Ok s' -> a_cfg s' = a_cfg s.
+Proof. exact other_events_add_no_edge. Qed.
 
 Example C12_nonvacuous :
   (* nop ; L: jmp L ; ret  in .text *)
